@@ -361,7 +361,13 @@ func (s *State) Import(state types.AppState, version string) error {
 		s.Candidates.SetDeletedCandidates(state.DeletedCandidates)
 	}
 
-	s.Candidates.RecalculateStakesV2(uint64(s.height))
+	// during InitChain the state height is still 0: use the initial height, or
+	// the stakes of candidates removed here would be frozen in the distant past
+	recalculateHeight := uint64(s.height)
+	if recalculateHeight == 0 {
+		recalculateHeight = uint64(s.InitialVersion)
+	}
+	s.Candidates.RecalculateStakesV2(recalculateHeight)
 
 	for _, w := range state.Waitlist {
 		value := helpers.StringToBigInt(w.Value)
